@@ -225,7 +225,12 @@ CLAIMED = {
              "enabled; a crash, sanitizer report, failed assertion or leak is a violation keyed by where it happened. TLC "
              "validates that every call returned the documented class and that a fixed probe utterance at the end of every "
              "tour gives the same result in every execution (the decoder is still usable and unchanged). Failing "
-             "configurations (unknown-word FSG, missing files) must fail cleanly.",
+             "configurations (unknown-word FSG, missing files) must fail cleanly. config_* calls have their own model "
+             "(ConfigStore/ConfigImpl: a typed store with the documented coercions, reference count, JSON update and "
+             "serialisation; TLC checks typing, refused-calls-change-nothing and the JSON round-trip laws): every edge of its "
+             "graph plus seeded random histories on the harness's and the standard parameter table run one process each under "
+             "ASan+LSan, and ConfigTrace checks every answer and the whole store after every call (return-class clauses count "
+             "for C09; value-semantics mismatches are reported as notes).",
         note="Grammar loading, word addition and re-initialisation are only issued between utterances. Memory safety, "
              "assertions and leaks are observed by the sanitizers, not by the specification. Trusted: TLC, recorder, ASan/LSan. "
              "Genuine defects found and repaired: 16f80b1, 2630811, de33ce4 (and, found by other checks' matrices: ea60103, "
